@@ -140,7 +140,7 @@ def leader_msg_arms(cx):
     cx.check(n >= 6, "floor", "follower and candidate arms for leader traffic were found")
 
 
-@obligation("SNAP.install_guards", ["C15"], floor=4, kind="guard (CNF) + must-not-reach",
+@obligation("SNAP.install_guards", ["C15", "C20"], floor=4, kind="guard (CNF) + must-not-reach",
             why="a stale or foreign snapshot must not replace the log; an already-matching one must discard nothing")
 def install_guards(cx):
     c = install_fn(cx)
